@@ -370,7 +370,10 @@ def _next_op(rng, sh):
                      [f"tick {k}", "loop_misc", "loop_misc"]
         if rng.random() < 0.5:
             # ... and a fresh connection right after (a PINGREQ may have been outstanding on the old one)
-            sh.pending += (["rx eof"] if rng.random() < 0.5 else []) + ["reconnect ok", "rx connack 0 0", "loop_misc",
+            # (the servicing loop may run before the CONNACK is there: nothing of the old connection may count against
+            # the new one)
+            early = ([f"tick {rng.choice([0, 100, 500])}", "loop_misc"] if rng.random() < 0.5 else [])
+            sh.pending += (["rx eof"] if rng.random() < 0.5 else []) + ["reconnect ok"] + early + ["rx connack 0 0", "loop_misc",
                                                                        f"tick {rng.choice([500, k // 2, k])}", "loop_misc"]
             _after_connect(sh, True)
             sh.connected = True
@@ -502,6 +505,15 @@ def _next_op(rng, sh):
     if r < 0.93:
         sh.sock = False
         sh.connected = False
+        if rng.random() < 0.3:
+            # the client's DISCONNECT cannot leave yet (blocked socket) and the peer ends the connection first
+            sh.pending = ["disconnect", ("rx disconnect " + rng.choice(["-", "0", "139", "142"])) if sh.cfg["proto"] == 5 and rng.random() < 0.7
+                          else rng.choice(["rx eof", "rx err"])] + (["loop_misc"] if rng.random() < 0.5 else []) + \
+                         ([_reco(rng, True), "rx connack 0 0"] if rng.random() < 0.4 else [])
+            if len(sh.pending) > 3:
+                _after_connect(sh, True)
+                sh.connected = True
+            return "send b"
         return "disconnect"
     if r < 0.945:
         if sh.cfg["proto"] == 5:
@@ -574,6 +586,8 @@ class ReentryStream(SessionStream):
     has_model = False
 
     def gen(self, rng, tier):
+        if rng.random() < 0.25:
+            return self.gen_window(rng)
         case = gen_case(rng, tier)
         cfg = case[0] + f" cbpub={rng.choice([1, 1, 2])} cbn={rng.choice([1, 2, 3])} cbw={rng.choice([0, 0, 1, 2])} cbop={rng.choice([0, 0, 0, 1, 2])}"
         # small windows make the release order visible
@@ -581,6 +595,33 @@ class ReentryStream(SessionStream):
             cfg = " ".join((f"N={rng.choice([1, 1, 2])}" if w.startswith("N=") else "ext=0" if w.startswith("ext=") else w) for w in cfg.split())
         # (no id fast-forward here: the generator does not know the ids of the nested publishes)
         return [cfg] + [l for l in case[1:] if not l.startswith("setmid")]
+
+
+    @staticmethod
+    def gen_window(rng):
+        """scripted: a full in-flight window with messages waiting behind it, acknowledgements arriving one by one, and the
+        application publishing again from inside on_publish - the nested message must queue up behind the waiting ones"""
+        proto = rng.choice([4, 4, 5, 3])
+        n = rng.choice([1, 1, 2, 3])
+        cfg = dict(proto=proto, clean=rng.choice([0, 1]), N=n, M=rng.choice([0, 0, 12]), manual=0, rof=1, ext=0,
+                   ka=rng.choice([0, 60]), sup=int(rng.random() < 0.3), cbpub=rng.choice([1, 1, 2]), cbn=rng.choice([1, 2, 3]),
+                   cbw=0, cbop=0)
+        case = ["cfg " + " ".join(f"{k}={v}" for k, v in cfg.items()), "connect ok", "rx connack 0 0"]
+        total = n + rng.randint(1, 3)
+        qos = [rng.choice([1, 1, 2]) for _ in range(total)]
+        for q in qos:
+            case.append(f"publish {q} {hx(b't/' + bytes([97 + rng.randrange(4)]))} {hx(bytes([rng.randrange(256)]))} 0")
+        # ids 1..total belong to the scripted messages (nested ones get higher ids); acknowledge in id order
+        for m, q in enumerate(qos, start=1):
+            if rng.random() < 0.1:
+                case.append("rx none")
+            if q == 1:
+                case.append(f"rx puback {m}")
+            else:
+                case += [f"rx pubrec {m}", f"rx pubcomp {m}"]
+        for m in range(total + 1, total + 1 + cfg["cbn"]):
+            case.append(rng.choice([f"rx puback {m}", f"rx pubrec {m}", f"rx pubcomp {m}", "rx none"]))
+        return case
 
 
 STREAMS = [SessionStream(), ReentryStream()]
